@@ -90,13 +90,21 @@ def check(text, specs, protected_extra=0):
         args = [elemargs.build(s, ctx) for s in specs]
     except Exception as e:  # noqa: BLE001
         return ("discard", f"building arguments: {e!r}")
+    # one protected entry that is the very object of a list argument (what `¥ ¥` or `←a ←a` leave on the stack):
+    # the entry below must keep its identity and its value even though the element also gets it as an argument
+    alias_i = None
+    for i_, s_ in enumerate(specs):
+        if isinstance(s_, tuple) and s_ and s_[0] in ("l", "z") and not elemargs.has_function(s_) and (len(text) + i_) % 2 == 0:
+            alias_i = i_
+            sent.append(args[i_])
+            break
     # two protected entries made by the interpreter itself: what ¾ and ¥ push for a non-empty global array / register
     stack = sent
     ctx.stacks.append(stack)
     ctx.global_array = [11, [12]]
     ctx.register = [21, 22]
     r0 = harness.exec_py(_code("¾¥"), stack, ctx, budget=50_000, wall=5)
-    if r0.exc is not None or len(stack) != 5 + pad:
+    if r0.exc is not None or len(stack) != 5 + pad + (alias_i is not None):
         return ("discard", "retrieval sentinels")
     sent = list(stack)
     nsent = len(sent)
@@ -138,6 +146,14 @@ def check(text, specs, protected_extra=0):
             if derived != [norm([11, [12]]), norm([21, 22])]:
                 what = ("the entries pushed earlier by ¾ and ¥ (then [11, [12]] and [21, 22]) now denote "
                         f"{harness.jsonable(derived)!r}")
+            elif alias_i is not None:
+                try:
+                    now = norm(sent[3 + pad], cap=3000)
+                except Exception as e:  # noqa: BLE001
+                    now = ("raises", repr(e))
+                if now != elemargs.denotation(specs[alias_i]):
+                    what = (f"the protected entry that is the same object as argument {alias_i} denoted "
+                            f"{harness.jsonable(elemargs.denotation(specs[alias_i]))!r:.160} before and {harness.jsonable(now)!r:.160} after")
     if what:
         return (f"C09:{text}:{_types(specs)}", f"{text} on sentinels + {specs!r}: {what}")
     return None
